@@ -13,6 +13,8 @@ from . import terms as tm
 from . import solve
 from .values import (Sym, SInt, SBool, SStr, SReal, SDec, SErr, Obj, SymSeq, Unsupported,
                      SpecError, REAL_FUNS, is_sym)
+from .models import REAL_FUNS_EXTRA
+REAL_FUNS.update(REAL_FUNS_EXTRA)
 from .interp import (Ctx, Interp, Closure, closure_of, PyRaise, Infeasible, PathEnd, ERRORS,
                      setup_errors, file_ast, Obligation, interpretable)
 
